@@ -578,9 +578,14 @@ def mismatch_category(stmts, srv):
     return "%s -> %s" % (rk, ik)
 
 
-def shrink(stmts, srv):
+def shrink(stmts, srv, cat_fn=None):
     """Greedy shrinking of the LAST statement's expression (and dropping of earlier non-prelude
-    statements): keep a step only if the case still fails in the same way."""
+    statements): keep a step only if the case still fails in the same way. cat_fn(stmts) gives
+    the failure category of a candidate (None = does not fail); default: C01's comparison."""
+    if cat_fn is not None:
+        mismatch_category = lambda st, _srv: cat_fn(st)      # noqa: E731
+    else:
+        mismatch_category = globals()["mismatch_category"]
     cat0 = mismatch_category(stmts, srv)
     if cat0 is None:
         return stmts
